@@ -23,7 +23,31 @@ type Op struct {
 	File   *File
 	Call   string // API call of the process during which the op was issued
 	killed bool
+	// Fault is the injected I/O error this operation must return instead of being
+	// performed (nil = perform it)
+	Fault error
 }
+
+// ErrInjected is the error of an injected I/O fault.
+var ErrInjected = &injectedErr{}
+
+type injectedErr struct{}
+
+func (*injectedErr) Error() string { return "verif: injected I/O error (EIO)" }
+
+// Faulted returns the injected error of the operation, nil if it is to be performed.
+func (op *Op) Faulted() error {
+	if op == nil {
+		return nil
+	}
+	return op.Fault
+}
+
+// faultable: operations that may fail with an injected error. Removals are excluded
+// (a process that cannot unlink cannot release anything, no property asks for that);
+// a faulted close still closes the descriptor, as the kernel does.
+var faultable = map[string]bool{"open": true, "openfile": true, "create": true, "tempfile": true, "rename": true,
+	"write": true, "close": true, "readfile": true, "readdir": true, "stat": true, "sync": true, "writefile": true}
 
 func (op *Op) denied() bool { return op != nil && op.killed }
 
@@ -58,6 +82,10 @@ type Proc struct {
 	Body    func(p *Proc)
 	// CrashAt: die immediately before performing the CrashAt-th hooked op (0 = never)
 	CrashAt int
+	// FaultAt: the FaultAt-th hooked op fails with ErrInjected if its kind is faultable
+	// (0 = never). FaultFired records the operation that took the fault.
+	FaultAt    int
+	FaultFired *Op
 	// CurCall is maintained by the harness (name of the API call in progress)
 	CurCall string
 	// virtual time offset accumulated by Sleep
@@ -265,6 +293,10 @@ func enter(kind, path, dst string, skip int) *Op {
 	p.nops++
 	s.Step++
 	op.Seq = s.Step
+	if p.FaultAt > 0 && p.nops == p.FaultAt && faultable[kind] {
+		op.Fault = ErrInjected
+		p.FaultFired = op
+	}
 	if s.PreOp != nil {
 		s.inMon = true
 		s.PreOp(s, op)
